@@ -2,7 +2,7 @@
 # usage: collect_seeded.sh <wtname> <PROP>  : copy deliverables into /verif/seeded/<PROP>-<x>/ and drop the worktree
 set -e
 wt=/tmp/wt/$1; P=$2
-for x in a b c d e f g h i j; do
+for x in a b c d e f g h i j k l; do
   if [ -f "$wt/deliver/patch_$x.diff" ]; then
     d=/verif/seeded/$P-$x; mkdir -p "$d"
     cp "$wt/deliver/patch_$x.diff" "$d/patch.diff"
